@@ -269,7 +269,9 @@ def replay(res, wd, cfg, nrels, drv, dot, max_walks=None):
             if k > 0 and mo != ro:
                 mismatch = "call %d (%s): result %s vs spec %s" % (k, op_of(g.edges[w[k - 1]][2], g.edges[w[k - 1]][3]), ro, mo)
             elif mr != rr:
-                mismatch = "call %d: object state %s vs spec %s" % (k, rr, mr)
+                diff = ["relation %d %s: real %s vs spec %s" % (ri + 1, f, rr[ri][f], mr[ri][f])
+                        for ri in range(len(mr)) for f in ("d2s", "par", "rnk", "stale", "cache") if mr[ri][f] != rr[ri][f]]
+                mismatch = "call %d (%s): %s" % (k, op_of(g.edges[w[k - 1]][2], g.edges[w[k - 1]][3]) if k else "-", "; ".join(diff))
             if mismatch:
                 break
         if mismatch:
@@ -285,9 +287,34 @@ def replay(res, wd, cfg, nrels, drv, dot, max_walks=None):
     return hists, lines
 
 # ------------------------------------------------------------------------------------------------ job generation
+def set_partitions(xs):
+    if not xs:
+        yield []
+        return
+    first, rest = xs[0], xs[1:]
+    for p in set_partitions(rest):
+        for i in range(len(p)):
+            yield p[:i] + [[first] + p[i]] + p[i + 1:]
+        yield [[first]] + p
+
+def parts_of_subsets(elems):
+    """every partition of every subset of elems (each class a list)"""
+    out = []
+    for mask in range(1 << len(elems)):
+        sub = [e for i, e in enumerate(elems) if mask >> i & 1]
+        out.extend(set_partitions(sub))
+    return out
+
+def build_ops(r, part):
+    """insert calls that make relation r hold exactly the partition"""
+    ops = []
+    for k in part:
+        ops += ["i:%d:%d:%d" % (r, k[0], x) for x in k[1:]] or ["i:%d:%d:%d" % (r, k[0], k[0])]
+    return ops
+
 def gen_jobs(tier, rng):
     q = tier == "quick"
-    fam = {"sequential": [], "concurrent": [], "directed": [], "systematic": [], "stress": []}
+    fam = {"sequential": [], "staleness": [], "concurrent": [], "directed": [], "systematic": [], "stress": []}
     # seeded random sequential histories, 1..3 relations, values at both ends of the 32-bit domain
     for k in range(80 if q else 1200):
         nrels = rng.choice([1, 2, 2, 3])
@@ -310,6 +337,19 @@ def gen_jobs(tier, rng):
             else:
                 ops.append("a:%d:%d" % (r, rng.choice(pool)))
         fam["sequential"].append("Q %d %s %s" % (nrels, rng.choice("b-"), ",".join(ops)))
+    # cache-staleness covering histories: for every pair (PA, PB) of partitions of subsets of a small element set: build
+    # relation 1 = PA and relation 2 = PB, READ both (the read - size / full iteration / partition / per-element range - freshens
+    # the cached partition lists), apply one merging call, then the whole battery on both relations
+    elems = [IMIN, 0, IMAX] if q else [IMIN, -1, 0, IMAX]
+    parts = parts_of_subsets(elems)
+    idx = 0
+    for pa in parts:
+        for pb in parts:
+            for op in ("A:1:2", "X:1:2"):
+                reads = {0: ["s:1", "s:2"], 1: ["l:1", "l:2"], 2: ["p:1:3", "p:2:3"],
+                         3: ["a:1:%d" % (pa[0][0] if pa else elems[0]), "a:2:%d" % (pb[0][0] if pb else elems[0])]}[idx % 4]
+                idx += 1
+                fam["staleness"].append("Q 2 - %s" % ",".join(build_ops(1, pa) + build_ops(2, pb) + reads + [op]))
     # concurrent insert phases under the cooperative scheduler, 1..8 threads
     def cprog(nt, per, pool):
         return ";".join(",".join("%d:%d" % (rng.choice(pool), rng.choice(pool)) for _ in range(rng.randint(1, per))) for _ in range(nt))
